@@ -100,7 +100,7 @@ def features_of(job):
     ex = G.EXPRS[c["expr"]]
     # continue_after_failed_step with a failing step that is not the last one: results follow a failed result
     cont_mid = bool(c.get("cont")) and any(s["o"] == "fail" for e in flat["elems"] for s in e["steps"][:-1])
-    return {"dry": bool(c["dry"]), "cont_fail_not_last": cont_mid, "rule_after_scenario": rule_after_scen,
+    return {"dry": bool(c["dry"]), "cont_fail_not_last": cont_mid, "before_all_fault": 1 in list(job["fault"]), "rule_after_scenario": rule_after_scen,
             "feature_bg": any(f.get("bg") is not None for f in job["prog"]["features"]),
             "rule_bg": any(it["kind"] == "rule" and it.get("bg") is not None for f in job["prog"]["features"] for it in f["items"]),
             "outline": any(e["kind"] == "outline" for e in flat["elems"]),
@@ -111,7 +111,7 @@ def features_of(job):
 
 def job_class(job):
     f = features_of(job)
-    return (job["prog"].get("family", ""), f["dry"], f["rule_after_scenario"], f["feature_bg"] or f["rule_bg"], f["outline"],
+    return (job["prog"].get("family", ""), f["before_all_fault"], f["dry"], f["rule_after_scenario"], f["feature_bg"] or f["rule_bg"], f["outline"],
             f["undefined"], f["badarg"], f["tags_show"], f["tags_hide"], f["fault"], f["cont_fail_not_last"])
 
 
@@ -321,11 +321,15 @@ TABLES = [
     {"headings": ["only"], "rows": [["r1"], ["r2"], ["r3"]]},
     {"headings": ["a b", "c"], "rows": [["", "x y"], ["u", ""]]},
     {"headings": ["coord", "name", "coord"], "rows": [["x1", "n1", "y1"]]},
+    # source text of cells that rendering has to escape: an escaped pipe (the cell holds a pipe), backslashes, backslash + n
+    {"headings": ["a\\|b", "c\\d"], "rows": [["e\\|f", "g\\h"], ["plain", "y\\nz"]]},
+    {"headings": ["p", "q\\|r"], "rows": [["\\|", "\\\\"]]},
 ]
 # for outline steps: <h1> / <h2> are extra Examples columns; rows alternate (c, c) -- the headings coincide -- and (c, d)
 OUTLINE_TABLES = [
     {"headings": ["<h1>", "<h2>", "z"], "rows": [["p1", "p2", "p3"], ["<h1>!", "q2", "q3"]]},
     {"headings": ["z", "<h2>", "<h1>"], "rows": [["s1", "s2", "s3"]]},
+    {"headings": ["<h1>\\|x", "w"], "rows": [["t\\u", "<h2>\\|<h1>"]]},
 ]
 TEXTS = [["one line"], ["line 1", "line 2"], ["first", "", "third"]]
 OUTLINE_TEXTS = [["value <h1> here"], ["<h1>", "and <h2>"]]
@@ -445,6 +449,8 @@ def decor_jobs(chk, rnd):
                "fault_kind": "exc", "pass": "decor", "decor": decor, "switches": [[], ["--no-multiline"]][i % 2]}
         if i % 4 == 3:
             job["formats"] = ["json.pretty", "plain", "pretty"]
+        elif i % 4 == 1:
+            job["formats"] = ["plain", "json", "progress3"]        # plain renders its tables before json dumps the feature
         jobs.append(job)
     return jobs
 
@@ -529,7 +535,7 @@ def tagged(chk, tag):
 
 # ------------------------------------------------------------------------------------------------ run
 def design_level(chk):
-    """TLC on the design: quick = <= 2 scenarios, alone or followed by a second feature; thorough = 3 scenarios (one feature),
+    """TLC on the design: quick = <= 2 scenarios followed by a second feature; thorough = 3 scenarios (one feature),
     2 scenarios with a second feature before / after, 2 scenarios with <= 3 own steps"""
     cfgs = ["Consumers_MC_quick.cfg"] if chk.quick() else ["Consumers_MC_thorough.cfg", "Consumers_MC_thorough_two.cfg",
                                                             "Consumers_MC_thorough_own3.cfg"]
@@ -577,7 +583,7 @@ def run(chk):
         emitted.extend(json.loads(t[1]) for t in r.by_tag("CASE"))
     n_emitted = len(emitted)
     emitted.sort(key=lambda c: json.dumps(c["run"], sort_keys=True))
-    nd = 550 if quick else 6000
+    nd = 400 if quick else 6000
     if len(emitted) > nd:
         emitted = rnd.sample(emitted, nd)
     djobs = [design_job(n, c) for n, c in enumerate(emitted)]
@@ -613,6 +619,8 @@ def run(chk):
     chk.extra["decor_tables_compared"] = sum(len(x["reports"]["tables"]["json"]) for x in drows)
     chk.extra["decor_tables_with_repeated_heading"] = sum(1 for x in drows for t in x["reports"]["tables"]["json"]
                                                           if len(set(t["headings"])) < len(t["headings"]))
+    chk.extra["decor_tables_with_escaped_cells"] = sum(1 for x in drows for t in x["reports"]["tables"]["model"]
+                                                       if any("|" in c or "\\" in c for r in [t["headings"]] + t["rows"] for c in r))
     chk.extra["decor_doc_strings_compared"] = sum(len(x["reports"]["tables"]["jtext"]) for x in drows)
     chk.extra["planned_cases_of_shared_plan"] = planned
     chk.extra["rows_run_died_in_formatter"] = sum(1 for x in rows if not x["end"]["ran"] and x["last_k"] == "fmt")
